@@ -117,6 +117,14 @@ def ev_ur(name, pkt):
     return ["UR", hx(name), hx(pkt)]
 
 
+def ev_uo(proto, key, tuple_hex, pkt, osc=None):
+    return ["UO", str(proto)] + ev_ua(key, tuple_hex, pkt, osc)[1:]
+
+
+def ev_up(proto, name, pkt):
+    return ["UP", str(proto), hx(name), hx(pkt)]
+
+
 def ev_ux(name):
     return ["UX", hx(name)]
 
@@ -230,7 +238,12 @@ def raw_history(r, layout, max_events=9, big=False):
             osc = None if r.random() < 0.6 else rbytes(r, r.choice([1, 5, 60]))
             # the tuple must be a real address image: a fresh process builds a session from it
             tup = layout.tuples[r.randrange(8)]
-            evs.append(ev_ua(r.choice(keys), tup, rbytes(r, r.choice(sizes)), osc))
+            # records of sessions of other transports in the same file (COAP_PROTO_DTLS .. WSS):
+            # every copy step has to keep the transport of the record it copies
+            if r.random() < 0.3:
+                evs.append(ev_uo(r.choice([2, 3, 4, 5, 6]), r.choice(keys), tup, rbytes(r, r.choice(sizes)), osc))
+            else:
+                evs.append(ev_ua(r.choice(keys), tup, rbytes(r, r.choice(sizes)), osc))
         elif x < 0.38:
             evs.append(ev_ud(r.choice(keys)))
         elif x < 0.58:
@@ -247,7 +260,11 @@ def raw_history(r, layout, max_events=9, big=False):
             head = len(coap_msg(0, 3, 0, tok, path, b"x")) - 1
             # the whole stored request is sz bytes long (at most 0x10000: what the readers accept)
             pkt = coap_msg(0, 3, r.randrange(65536), tok, path, rbytes(r, sz - head) if sz > head else b"")
-            evs.append(ev_ur(r.choice(dnames), pkt))
+            # COAP_PROTO_DTLS frames a stored request like UDP does: the loader accepts it
+            if r.random() < 0.3:
+                evs.append(ev_up(2, r.choice(dnames), pkt))
+            else:
+                evs.append(ev_ur(r.choice(dnames), pkt))
         elif x < 0.95:
             evs.append(ev_ux(r.choice(dnames + cnames[:3])))
         else:
